@@ -11,6 +11,7 @@ cot = "real COT.Send/COT.Receive (semi-honest) + MITCCRH over the real IKNP exte
 hs = [H("verifC06Labels1", lab + "n=1"), H("verifC06Labels7", lab + "n=7"), H("verifC06Labels9x2", lab + "n=9, two consecutive batches on one instance (streams in lock step)"),
       H("verifC06Labels17", lab + "n=17"), H("verifC06Labels65", lab + "n=65"), H("verifC06Labels513", lab + "n=513 (two chunks)"),
       H("verifC06Bits1", bit + "n=1"), H("verifC06Bits9", bit + "n=9"), H("verifC06Bits64", bit + "n=64"), H("verifC06Bits65", bit + "n=65"),
+      H("verifC06Mixed9", "both forms on ONE initialised pair (shared PRG streams): bit batch n=9, then label batch n=9, then bit batch n=9; every batch satisfies its correlation"),
       H("verifC06COT1", cot + "n=1"), H("verifC06COT9", cot + "n=9 (crosses the MITCCRH batch of 8)")]
 if tier != "quick":
     hs += [H("verifC06Labels520", lab + "n=520"), H("verifC06Bits513", bit + "n=513 (two chunks)"), H("verifC06COT17", cot + "n=17")]
